@@ -45,12 +45,12 @@ def obligations_for(pid, built):
         if uc:
             for c in uc.ensures:
                 props = c.props or safety
-                if pid in props:
+                if pid in props or "*" in props:
                     obs.append({"unit": uid, "label": c.label, "kind": "ensures", "obligation": "%s/%s" % (uid, c.label), "text": " ".join(c.text.split())[:400]})
             for key, (props, t) in uc.loops.items():
-                if pid in (props or safety):
+                if pid in (props or safety) or "*" in (props or safety):
                     obs.append({"unit": uid, "label": key, "kind": "loop", "obligation": "%s/loop %s" % (uid, key), "text": " ".join(t.split())[:400]})
-        if pid in safety:
+        if pid in safety or "*" in safety:
             obs.append({"unit": uid, "label": "safety", "kind": "safety", "obligation": "%s/safety" % uid,
                         "text": "implicit: index bounds, integer overflow, callee preconditions, unwrap on Some/Ok, proof hints, termination"})
     return obs
@@ -152,7 +152,7 @@ def main():
         failed_obs = {}
         lost = set(am.get("anchor_lost_units", []))
         for f in am["failures"]:
-            if f.get("props") and pid in f["props"]:
+            if f.get("props") and (pid in f["props"] or "*" in f["props"]):
                 if f.get("owner") in lost or f.get("clause_unit") in lost:
                     undecided.append("%s: a proof hint of %s no longer compiles (it names a local or statement that is gone: structure changed); %s is not decided"
                                      % (gname, f.get("clause_unit") or f.get("owner"), f["obligation"]))
@@ -165,7 +165,7 @@ def main():
             for u in s["undecided"]:
                 unstable.append("%s: %s" % (gname, u))
             for f in s["failures"]:
-                if f.get("props") and pid in f["props"] and f["obligation"] not in failed_obs:
+                if f.get("props") and (pid in f["props"] or "*" in f["props"]) and f["obligation"] not in failed_obs:
                     unstable.append("%s: %s fails under another solver seed" % (gname, f["obligation"]))
         units_of_p = sorted(set(o["unit"] for o in obs))
         for o in obs:
